@@ -23,6 +23,9 @@ type Case struct {
 	Force    bool           `json:"force"`     // global --force
 	RefForce []bool         `json:"ref_force"` // per refspec '+'
 	FF       string         `json:"ff"`        // "", "--ff", "--no-ff", "--ff-only" (merge / pull)
+	// PushDst (push): per ref, the index of the ref whose name is the destination of the refspec
+	// (-1 or absent: same name) - e.g. a branch pushed onto an existing remote tag
+	PushDst []int `json:"push_dst,omitempty"`
 }
 
 var sub = evid.Register("refmove", run)
@@ -37,6 +40,11 @@ func TestPropRefMoves(t *testing.T) {
 		}
 		for range c.T.Refs {
 			c.RefForce = append(c.RefForce, rapid.IntRange(0, 3).Draw(t, "refforce") == 0)
+			d := -1
+			if rapid.IntRange(0, 3).Draw(t, "crossdst") == 0 {
+				d = rapid.IntRange(0, len(c.T.Refs)-1).Draw(t, "dst")
+			}
+			c.PushDst = append(c.PushDst, d)
 		}
 		sub.Check(t, c)
 	})
@@ -233,16 +241,29 @@ func run(c Case) (o evid.Outcome, err error) {
 		rbefore, _ := syncx.ReadRefs(w.Server.RS)
 		args := []string{"push", "origin"}
 		var exps []expect
+		usedDst := map[string]bool{}
+		cross := 0
 		for i, r := range c.T.Refs {
 			if r.L < 0 {
 				continue
 			}
-			spec := fmt.Sprintf("refs/%s:refs/%s", r.Name, r.Name)
+			dst := r.Name
+			if i < len(c.PushDst) && c.PushDst[i] >= 0 && c.PushDst[i] < len(c.T.Refs) {
+				dst = c.T.Refs[c.PushDst[i]].Name
+			}
+			if usedDst[dst] {
+				continue // two refspecs onto one destination: outcome unspecified
+			}
+			usedDst[dst] = true
+			if dst != r.Name {
+				cross++
+			}
+			spec := fmt.Sprintf("refs/%s:refs/%s", r.Name, dst)
 			if c.RefForce[i] {
 				spec = "+" + spec
 			}
 			args = append(args, spec)
-			exps = append(exps, expect{dst: r.Name, old: rbefore.Refs[r.Name], new: w.Sums[r.L], forced: c.Force || c.RefForce[i], src: r.Name})
+			exps = append(exps, expect{dst: dst, old: rbefore.Refs[dst], new: w.Sums[r.L], forced: c.Force || c.RefForce[i], src: r.Name})
 		}
 		if len(exps) == 0 {
 			o.Class("nothing-to-do")
@@ -308,6 +329,9 @@ func run(c Case) (o evid.Outcome, err error) {
 			}
 		}
 		o.NonTrivial = nonFF >= 1 && len(exps) >= 2
+		if cross > 0 {
+			o.Class("push-onto-another-name")
+		}
 	case "merge", "pull":
 		// pick two local branches
 		var main, other string
